@@ -253,10 +253,11 @@ def long_uptime(ctx, sf):
                         sent[p] += 1
                         senders.send(src, col.ports[p], mk[p](sent[p]))
                 time.sleep(0.25)
-            last = None
-            for _ in range(80):
+            last, same = None, 0
+            for _ in range(600):          # until everything has arrived, or nothing has moved for 5 s (at most a minute)
                 cur = len(sink.snapshot())
-                if cur == last and cur >= sum(sent.values()):
+                same = same + 1 if cur == last else 0
+                if (cur >= sum(sent.values()) and same >= 3) or same >= 50:
                     break
                 last = cur
                 time.sleep(0.1)
